@@ -26,7 +26,7 @@ RULE = (
     "that run - handlers and observers - and inside EVERY evaluator call (exhaustive over the bounded runs); Hypothesis "
     "adds random problem data and budgets. Oracle: bracket grammar per step, exactly-once delivery in the order own "
     "handlers -> ancestor handlers -> observers, USER_ABORT exit code, aborted flags of plan and parent, PlanAborted on "
-    "the next step. Non-trivial: an abort point other than 'first FINISHED_EVALUATION' and 'second START_EVALUATION'."
+    "the next step and on re-entering the plan through its function. Non-trivial: an abort point other than 'first FINISHED_EVALUATION' and 'second START_EVALUATION'."
 )
 ASSUMPTIONS = [
     "runs are deterministic, so the unaborted run enumerates the abort points of the aborted ones",
@@ -199,6 +199,7 @@ def execute(case: dict[str, Any], abort_at: tuple[int, str] | None, abort_call: 
     out["emissions"] = ctl.index + 1
     out["aborted_at"] = ctl.aborted_at
     out["calls"] = len(ev.calls)
+    out["calls_now"] = lambda: len(ev.calls)
     out["ctl"] = ctl
     return out
 
@@ -307,6 +308,22 @@ def check_run(case: dict[str, Any], out: dict[str, Any], aborting: bool, label: 
             pass
         else:
             check(False, "not-latched", f"{label}: a further step ran on plan '{chain[-1]}' although it was aborted", case)  # noqa: FBT003
+        # the latch also holds when the plan is entered through its function (as a nested optimization would do)
+        for t in chain:
+            plan = out["plans"][t][0]
+            if t != "inner":
+                def probe_fn(plan: Plan, variables: np.ndarray) -> Any:  # noqa: ANN401
+                    return plan.run_step(plan.add_step("evaluator"), config=make_config(case, None, 2), variables=variables)
+                plan.add_function(probe_fn)
+            ncalls = out["calls_now"]()
+            try:
+                plan.run_function(np.array(case["x0"], dtype=np.float64))
+            except PlanAborted:
+                pass
+            else:
+                check(False, "not-latched", f"{label}: the function of the aborted plan '{t}' ran its steps again", case)  # noqa: FBT003
+            check(out["calls_now"]() == ncalls, "not-latched", f"{label}: the evaluator was called again through the function of the aborted plan '{t}'", case)
+            check(plan.aborted, "not-latched", f"{label}: plan '{t}' lost its aborted flag when its function was run again", case)
     else:
         check(not any(p.aborted for p, _ in out["plans"].values()), "spurious-abort", f"{label}: plan marked aborted without an abort", case)
         check(all(isinstance(c, OptimizerExitCode) and c != OptimizerExitCode.USER_ABORT for _, c in codes), "exit-code",
